@@ -173,7 +173,7 @@ def main():
   seed = int(os.environ.get('VERIF_SEED', '0'))
   rng = random.Random(seed * 104729 + 3)
   t0 = time.time()
-  n_models = 700 if tier == 'thorough' else 80
+  n_models = 2500 if tier == 'thorough' else 180
   cases = []
   viol = []
   dist = collections.Counter()
